@@ -302,6 +302,52 @@ func fixturesMain() int {
 		expect("FM entails x <= 9", entails(fs, linConst(9).sub(x)), true)
 		expect("FM does not entail x <= 8", entails(fs, linConst(8).sub(x)), false)
 	}
+	// round 6/7 primitives
+	{
+		trips := func(f *ssa.Function) int64 {
+			prod := int64(1)
+			for _, l := range NaturalLoops(f) {
+				k, ok := tripCount(l)
+				if !ok {
+					return -1
+				}
+				prod *= k
+			}
+			return prod
+		}
+		expect("tripCount single loop 128", trips(fn("TripFull")) == 128, true)
+		expect("tripCount short loop 127", trips(fn("TripShort")) == 127, true)
+		expect("tripCount nested 4 x 32", trips(fn("TripNested")) == 128, true)
+		numLoopOK := func(f *ssa.Function) bool {
+			for _, l := range NaturalLoops(f) {
+				num, phi := inputNumberBound(f, l)
+				if num == "" {
+					return false
+				}
+				ps, _ := IterationPaths(f, l)
+				for _, p := range ps {
+					if p.End != "stop" {
+						continue
+					}
+					found := false
+					for _, e := range p.Events {
+						if e.Kind != EvCond {
+							continue
+						}
+						if (e.Val != nil && foundKeyedByInduction(e.Val, e.ValPol, l, phi)) || (condOf(e.Instr) != nil && foundKeyedByInduction(condOf(e.Instr), e.Pol, l, phi)) {
+							found = true
+						}
+					}
+					if !found {
+						return false
+					}
+				}
+			}
+			return true
+		}
+		expect("input-number loop that stops at the first miss", numLoopOK(fn("NumLoopStops")), true)
+		expect("input-number loop that continues on a miss", numLoopOK(fn("NumLoopGoesOn")), false)
+	}
 	fmt.Printf("fixtures: %d expectations, %d failed\n", n, failed)
 	if failed > 0 {
 		return 1
